@@ -1,0 +1,31 @@
+// Copyright 2026 The Go Authors. All rights reserved.
+// Use of this source code is governed by a BSD-style
+// license that can be found in the LICENSE file.
+
+//go:build verif
+
+// Package verifhook provides named observation points for the runtime
+// monitors under /verif. With the "verif" build tag, Point calls the
+// handler installed by Set (if any); a monitor uses it to record events
+// and to perturb goroutine schedules.
+package verifhook
+
+import "sync/atomic"
+
+var handler atomic.Pointer[func(site string)]
+
+// Set installs h as the handler called by Point (nil removes it).
+func Set(h func(site string)) {
+	if h == nil {
+		handler.Store(nil)
+		return
+	}
+	handler.Store(&h)
+}
+
+// Point marks that execution reached the named site.
+func Point(site string) {
+	if h := handler.Load(); h != nil {
+		(*h)(site)
+	}
+}
